@@ -1767,7 +1767,7 @@ def check_enc(cx):
 
 ENC_THEOREMS = {
     "C01": ["AL.Properties.Sweep.c01_sweep", "AL.Properties.C01.nop_table_decodes", "AL.Properties.C01.no_operand_lines"],
-    "C02": ["AL.Properties.Sweep.c02_sweep", "AL.Properties.C02.disp_field_reads_back", "AL.Spec.X86.leVal_assembleConst", "AL.Spec.X86.toSigned_roundtrip",
+    "C02": ["AL.Properties.Sweep.c02_sweep", "AL.Properties.C02.disp_field_reads_back", "AL.Properties.C02.decoder_reads_every_operand", "AL.Spec.X86.leVal_assembleConst", "AL.Spec.X86.toSigned_roundtrip",
             "AL.Properties.C11.swap_same_address", "AL.Properties.C11.nobase_scale2_same_address", "AL.Properties.C11.nobase_scale1_same_address"],
     "C03": ["AL.Properties.Sweep.c03_sweep", "AL.Properties.C03.written_number_value", "AL.Properties.C03.imm_field_reads_back", "AL.Properties.C03.imm_field_dword", "AL.Properties.C03.imm_field_qword",
             "AL.Lemmas.assembleImm_dword", "AL.Lemmas.assembleImm_qword", "AL.Lemmas.assembleImm_reduced", "AL.Lemmas.assembleConst_pad",
@@ -1897,6 +1897,11 @@ def model_fault(sc, kind, k, counts):
         exp["bin"] = step[0]
         exp["file_complete"] = "1" if step[1] == exp["code1"] else "0"
     exp["asm3"], exp["off3"] = out[-2].split()[0], out[-2].split()[1]
+    if sc.startswith("growth") and kind == "mremap":
+        # only the k-th growth is refused: the follow-up call may itself have to grow and that growth succeeds, so it runs on an
+        # instance that has the room of k growths, positioned at the offset the failed call left behind
+        o2 = run(["N 1 %d 00" % (6020 + 6000 * k), "O 1 %s" % exp["off2"], "A 1 %s" % cases.hexs(P3_TEXT), "F 1"])
+        exp["asm3"], exp["off3"] = o2[-2].split()[0], o2[-2].split()[1]
     exp["destroy"] = "0"
     return exp
 
@@ -2091,6 +2096,7 @@ def check_C18(cx):
     # process cannot be re-entered later)
     impl = build_impl(cx, name="thrdrv", flavour="tsan")
     nsched = 0
+    held_first = False
     for k in range(1, 26):
         env = dict(os.environ, TSAN_OPTIONS="halt_on_error=0 exitcode=66 report_signal_unsafe=0")
         p = subprocess.run([impl, "sched", str(k)], stdout=subprocess.PIPE, stderr=subprocess.PIPE, env=env, timeout=600)
@@ -2099,6 +2105,8 @@ def check_C18(cx):
         races = err.count("WARNING: ThreadSanitizer")
         m = re.search(r"held=(\d) stores_by_A=\d+ steps=(\d+) mismatches=(\d+)", out[-1] if out else "")
         nsched += 1
+        if k == 1 and m and m.group(1) == "1":
+            held_first = True
         if p.returncode != 0 or races or not m or m.group(3) != "0":
             cx.violations.append({"kind": "interleaving", "schedule": "thread A held after %d index table stores of the process's first "
                                   "asm_create_instance while thread B creates, assembles and destroys its own instances" % k,
@@ -2106,7 +2114,7 @@ def check_C18(cx):
                                   "what": "a thread using only its own instances does not get the results it gets when running alone"})
             break
         cx.count(int(m.group(2)) * 2, [])
-    cx.oblige("hook ALVERIF_INDEX_STORE present: thread A was held inside its create in the scheduled runs", nsched > 0 and bool(m) and m.group(1) == "1",
+    cx.oblige("hook ALVERIF_INDEX_STORE present: thread A was held inside its create in the scheduled runs", nsched > 0 and held_first,
               "the hook did not fire (source_commits of MANIFEST.hooks)")
     cx.nontrivial.update((r[0], r[1], r[2]) for r in runs)
     cx.nontrivial.update(("sched", k) for k in range(1, nsched + 1))
